@@ -157,13 +157,15 @@ func resolvePath(root any, path []int) any {
 // fullDelivery caches, per (object, buffer size), what happens when the whole encoding is available at once.
 var fullDelivery = map[string]result{}
 
+// Leaf layout: leaf 0 tries every buffer size with the whole data available at once and reports the sizes that
+// fail on their own (one leaf, whatever the number of failing sizes); the other leaves are (buffer size x
+// chunking class) and are out of scope under a buffer size that already failed in leaf 0.
 func famFragmentation(x *lc) {
 	if x.o.a.rf == nil || !x.o.wbinOK {
 		x.c.Skip("type has no ReadFrom")
 		return
 	}
-	bs := bufSizes[x.c.Choose(len(bufSizes), "reader-buffer")]
-	x.c.Cover("frag-buffer", bufName(bs))
+	k := x.c.Choose(1+len(bufSizes)*len(chunkClasses), "environment")
 	if !x.baseline(decoders[1]) {
 		return
 	}
@@ -187,7 +189,7 @@ func famFragmentation(x *lc) {
 	culprit := func(bs int, ch chunking) string {
 		var path []int
 		name := declName(x.o.obj, "ReadFrom")
-		for depth := 0; depth < 8; depth++ {
+		for depth := 0; depth < 24; depth++ {
 			names := runJob(hdr, job{Op: "comps", Path: path}).Names
 			found := false
 			for i, n := range names {
@@ -202,29 +204,36 @@ func famFragmentation(x *lc) {
 		}
 		return name
 	}
-	// 1. the buffer size alone, whole data available at once. When that already fails, the chunkings below it
-	//    are not enumerated: one environment class, one leaf, one signature.
-	key := fmt.Sprintf("%s\x00%d\x00%d", x.e.name, x.vi, bs)
-	r0, ok := fullDelivery[key]
-	if !ok {
-		r0 = run(nil, bs, fullChunk)
-		fullDelivery[key] = r0
+	full := func(bs int) result {
+		key := fmt.Sprintf("%s\x00%d\x00%d", x.e.name, x.vi, bs)
+		r0, ok := fullDelivery[key]
+		if !ok {
+			r0 = run(nil, bs, fullChunk)
+			fullDelivery[key] = r0
+		}
+		return r0
 	}
-	if bad(r0) {
+	if k == 0 {
 		x.c.Cover("frag-chunks", "full")
-		x.c.Outcome(x.name, bs, "full", describe(r0))
-		x.c.Fail(sig("fragmentation", culprit(bs, fullChunk), bufName(bs)), "%s [%s] (%d valid bytes) read through %s with the whole data available: %s",
-			x.e.name, x.label(), len(x.o.wbin), bufName(bs), describe(r0))
+		nbad := 0
+		for _, bs := range bufSizes {
+			x.c.Cover("frag-buffer", bufName(bs))
+			if r0 := full(bs); bad(r0) {
+				nbad++
+				x.c.Fail(sig("fragmentation", culprit(bs, fullChunk), bufName(bs)), "%s [%s] (%d valid bytes) read through %s with the whole data available: %s",
+					x.e.name, x.label(), len(x.o.wbin), bufName(bs), describe(r0))
+			}
+		}
+		x.c.Count(len(bufSizes))
+		x.c.Outcome(x.name, "full", nbad)
 		return
 	}
-	// 2. chunkings, by class, under a buffer size that works
-	ci := x.c.Choose(len(chunkClasses)+1, "chunking-class")
-	if ci == 0 {
-		x.c.Cover("frag-chunks", "full")
-		x.c.Outcome(x.name, bs, "full", "ok")
+	bs := bufSizes[(k-1)/len(chunkClasses)]
+	class := chunkClasses[(k-1)%len(chunkClasses)]
+	if bad(full(bs)) {
+		x.c.Skip("this buffer size fails with the whole data available (reported by the first leaf of the scenario)")
 		return
 	}
-	class := chunkClasses[ci-1]
 	x.c.Cover("frag-chunks", class)
 	chs := chunkings(class, len(x.o.wbin), x.c.Tier)
 	var jobs []job
@@ -243,7 +252,7 @@ func famFragmentation(x *lc) {
 		// the chunking alone (default-size buffer) or only the combination?
 		env := class
 		if bs != 0 && bs != 4096 && !bad(run(nil, 4096, ch)) {
-			env = bufName(bs) + "+" + class
+			env = "bufio<4096+" + class
 		}
 		x.c.Fail(sig("fragmentation", culprit(bs, ch), env), "%s [%s] (%d valid bytes) read through %s with chunking %s (zero-read at %d): %s",
 			x.e.name, x.label(), len(x.o.wbin), bufName(bs), ch.name, ch.zeroAt, describe(r))
